@@ -723,6 +723,8 @@ pub fn enumerate_write_faults(text: &str) -> Vec<AisleScenario> {
 #[derive(Default, Serialize)]
 struct WorkerOut {
     property: String,
+    /// names offered as "chances" by the birthday-sampling mode
+    collide_names: u64,
     runs: u64,
     executions: u64,
     parsed_ok: u64,
@@ -987,6 +989,86 @@ pub fn worker(a: &Args) -> i32 {
                     if out.violations.len() >= max_viol {
                         break 'outer;
                     }
+                }
+            }
+        }
+        // birthday sampling: `A`, then a block of N distinct names, then `A` again must be rejected
+        // whatever the block contains. A duplicate table keyed by a short fingerprint of the name
+        // (a truncated or home-made hash) forgets `A` when some name of the block shares its
+        // fingerprint; every name of the block is one chance in 2^bits, so --runs files of --names
+        // names reach fingerprints of about log2(runs * names) bits. The file is too large for
+        // the scenario machinery (and for the quadratic reference reading), so it is checked
+        // directly, bisected to the one colliding name, and only that 3-name file goes through
+        // `execute` and into a replay file.
+        "collide" => {
+            let per_file = a.u64("names", 1_000_000) as usize;
+            let mut k = 0u64;
+            for f in 0..runs {
+                k += 1;
+                if k % workers != worker {
+                    continue;
+                }
+                let mut r = Rng::new(mix3(seed, 0xC011_1DE, f));
+                let name = |j: usize, h: u64| -> String {
+                    // distinct by construction (the index is part of the name), varied in every byte
+                    const A: &[u8] = b"abcdefghijklmnopqrstuvwxyz ";
+                    let mut s = String::new();
+                    let mut x = j;
+                    loop {
+                        s.push(A[x % 26] as char);
+                        x /= 26;
+                        if x == 0 {
+                            break;
+                        }
+                    }
+                    let mut h = h;
+                    for _ in 0..(3 + h % 6) {
+                        h = h.wrapping_mul(6364136223846793005).wrapping_add(1442695040888963407);
+                        s.push(A[((h >> 33) % 27) as usize] as char);
+                    }
+                    s.push('z');
+                    s
+                };
+                let first = name(0, r.next_u64());
+                let block: Vec<String> = (1..=per_file).map(|j| name(j, r.next_u64())).collect();
+                let build = |lo: usize, hi: usize| -> String {
+                    let mut t = String::with_capacity(16 + (hi - lo) * 12);
+                    t.push_str("[c]\n");
+                    t.push_str(&first);
+                    t.push('\n');
+                    for n in &block[lo..hi] {
+                        t.push_str(n);
+                        t.push('\n');
+                    }
+                    t.push_str(&first);
+                    t.push('\n');
+                    t
+                };
+                let accepted = |t: &str| matches!(catch_unwind(AssertUnwindSafe(|| aisle::parse(t).is_ok())), Ok(true));
+                out.runs += 1;
+                out.collide_names += per_file as u64;
+                cooklang::verif_seam::reseed(f);
+                if !accepted(&build(0, per_file)) {
+                    continue;
+                }
+                // some name of the block made the parser forget `first`: find it
+                let (mut lo, mut hi) = (0usize, per_file);
+                while hi - lo > 1 {
+                    let mid = (lo + hi) / 2;
+                    if accepted(&build(lo, mid)) {
+                        hi = mid;
+                    } else if accepted(&build(mid, hi)) {
+                        lo = mid;
+                    } else {
+                        break; // needs names from both halves: keep the whole range
+                    }
+                }
+                let text = build(lo, hi.min(lo + 64));
+                let sc = AisleScenario { text, hash_seed: f, ops_a: vec![AisleOp::Lookup], ops_b: vec![], other_text: None, ops_c: vec![], order: vec![] };
+                let (viol, st) = execute(&sc);
+                absorb(&mut out, &sc, &st, &viol, a, None, &replay_dir, &format!("collide-{f}"));
+                if out.violations.len() >= max_viol {
+                    break;
                 }
             }
         }
